@@ -54,7 +54,9 @@ static void build_kills(void)
     kills[nkill++] = (kill_t) { K_ILLEGAL_HS, 20 }; /* Finished */
     kills[nkill++] = (kill_t) { K_ILLEGAL_HS, 99 }; /* unknown type */
     kills[nkill++] = (kill_t) { K_OVERSIZE, 0 };
-    kills[nkill++] = (kill_t) { K_BADVER, 0 };
+    kills[nkill++] = (kill_t) { K_BADVER, 0 };     /* record version 7f.7f (no such protocol) */
+    kills[nkill++] = (kill_t) { K_BADVER, 1 };     /* a real version of the same family, but not the negotiated one */
+    kills[nkill++] = (kill_t) { K_BADVER, 2 };     /* a version of the other family (DTLS <-> TLS) */
     kills[nkill++] = (kill_t) { K_TRUNC_TAG, 0 };  /* warning-level close_notify in plaintext */
 }
 
@@ -178,7 +180,18 @@ static int apply_kill(gctx_t *g, const kill_t *k)
         g->orig_len = len;
         if (k->kind == K_BADVER)
         {
-            rec[1] = 0x7f; rec[2] = 0x7f;
+            if (k->a == 0)
+            {
+                rec[1] = 0x7f; rec[2] = 0x7f;
+            }
+            else if (k->a == 1)
+            {
+                rec[2] = dtls ? (rec[2] == 0xfd ? 0xff : 0xfd) : (rec[2] == 3 ? 2 : 3);
+            }
+            else
+            {
+                rec[1] = dtls ? 3 : 0xfe; rec[2] = dtls ? 3 : 0xfd;
+            }
         }
         else if (k->a == 0)
         {
@@ -346,6 +359,25 @@ static void run_case(void *ctx, mx_result_t *r)
     dead = is_dead(g);
     if (!dead)
     {
+        /* "no error path reports success": on TLS <= 1.2 (record header fields are checked, nothing may be skipped) these
+           events are errors in every state once the versions are negotiated; DTLS may discard silently and TLS 1.3 ignores
+           the legacy record version.  The other events (a flipped bit in a plaintext handshake message, a HelloRequest)
+           need not be errors. */
+        int negotiated = hs != SSL_HS_CLIENT_HELLO && hs != SSL_HS_SERVER_HELLO;   /* state before the event */
+        int must = !ver_is_dtls(c->ver) && c->ver != V_TLS13 && c->cver != V_MULTI && negotiated &&
+            (k->kind == K_BADVER || k->kind == K_OVERSIZE || k->kind == K_PLAIN_ALERT || (k->kind == K_ILLEGAL_HS && k->a == 99));
+        if (must && (k->kind != K_BADVER || g->orig_len > 0))
+        {
+            r->violation = 1;
+            r->nontrivial = 1;
+            snprintf(r->key, sizeof(r->key), "%s|v=%c|%s|error-event-not-fatal", cd, "cs"[v], kname[k->kind]);
+            snprintf(r->what, sizeof(r->what), "%s %s (hsState %d): %s (variant %d) was answered with success: no error code, no alert, session still alive (last rc %d) [%s]",
+                cd, v ? "server" : "client", hs, kname[k->kind], k->a, s->last_rc, r->desc);
+            snprintf(r->outcome, sizeof(r->outcome), "%s:NOT-KILLED", kname[k->kind]);
+            r->transitions = g->w.actions;
+            r->trace_hash = world_trace_hash(&g->w);
+            return;
+        }
         snprintf(r->outcome, sizeof(r->outcome), "%s:not-killed", kname[k->kind]);
         r->nontrivial = 0;
         r->transitions = g->w.actions;
